@@ -878,3 +878,63 @@ func TestReplay_ScopedResultObjectWithNilField(t *testing.T) {
 		t.Errorf("REPLAY-CONFIRMED scope.createInstance#assert[requested_field_missing_stores_nothing]: one scope returned two instances of *rbNFA (ids %d and %d); the constructor ran %d times", a1.id, a2.id, calls)
 	}
 }
+
+type rbTwiceI interface{ Hello() string }
+type rbTwice struct{ closes int }
+
+func (d *rbTwice) Close() error { d.closes++; return nil }
+func (*rbTwice) Hello() string  { return "hi" }
+
+type rbTwiceOut struct {
+	Out
+	DB    *rbTwice
+	Iface rbTwiceI
+}
+
+// scope.createInstance#assert[an_object_is_tracked_once_per_invocation]: one object returned under two outputs of one constructor - its
+// concrete type and an interface it implements, the usual use of multiple return values and result objects - was handed to the
+// disposal tracking once per output and closed twice, for every lifetime.
+func TestReplay_SameObjectUnderTwoOutputsIsClosedOnce(t *testing.T) {
+	for _, form := range []string{"multi-return", "result-object"} {
+		for _, lt := range []Lifetime{Singleton, Scoped, Transient} {
+			db := &rbTwice{}
+			var ctor any = func() (*rbTwice, rbTwiceI) { return db, db }
+			if form == "result-object" {
+				ctor = func() rbTwiceOut { return rbTwiceOut{DB: db, Iface: db} }
+			}
+			c := NewCollection()
+			var err error
+			switch lt {
+			case Singleton:
+				err = c.AddSingleton(ctor)
+			case Scoped:
+				err = c.AddScoped(ctor)
+			default:
+				err = c.AddTransient(ctor)
+			}
+			if err != nil {
+				t.Fatal(err)
+			}
+			p, err := c.Build()
+			if err != nil {
+				t.Fatal(err)
+			}
+			sc, _ := p.CreateScope(context.Background())
+			if _, err := Resolve[*rbTwice](sc); err != nil {
+				t.Fatal(err)
+			}
+			if i, err := Resolve[rbTwiceI](sc); err != nil || (lt != Transient && i != rbTwiceI(db)) {
+				t.Errorf("the object is not resolvable under its second output: %v %v", i, err)
+			}
+			sc.Close()
+			p.Close()
+			want := 1
+			if lt == Transient {
+				want = 2 // two resolutions, two invocations, each tracks the object once
+			}
+			if db.closes != want {
+				t.Errorf("REPLAY-CONFIRMED scope.createInstance#assert[an_object_is_tracked_once_per_invocation]: %s/%v: the object was closed %d times, want %d", form, lt, db.closes, want)
+			}
+		}
+	}
+}
